@@ -54,10 +54,23 @@ def make_reader(data, chunk=None):
     if chunk is None:
         return DiffXReader(io.BytesIO(data))
 
-    class ChunkReader(DiffXReader):
-        def _read_until(self, c, chunk_size=None):
-            return DiffXReader._read_until(self, c, chunk_size=chunk)
+    # the method that takes the block size is found by its signature, not by its name
+    import introspect
+    found = introspect.block_size_method(DiffXReader)
+    if found is None:
+        raise CannotVaryBlockSize('no method of DiffXReader takes a block size')
+    mname, pname, _default = found
+    orig = getattr(DiffXReader, mname)
+
+    def with_block_size(self, *a, **kw):
+        kw[pname] = chunk
+        return orig(self, *a, **kw)
+    ChunkReader = type('ChunkReader', (DiffXReader,), {mname: with_block_size})
     return ChunkReader(io.BytesIO(data))
+
+
+class CannotVaryBlockSize(Exception):
+    pass
 
 
 def read_records(data, chunk=None):
@@ -107,10 +120,24 @@ def sec_show(sec):
     return '%d.%s' % (len(sec) - len(sec.lstrip('.')), sec.lstrip('.'))
 
 
+def writer_state(w):
+    """(stack of declared encodings, id of the last section written) found by shape, or None when
+    the writer keeps its state in a form the harness does not recognise"""
+    import introspect
+    st = introspect.writer_stack(w)
+    found, prev = introspect.writer_prev_section(w)
+    if st is None or not found:
+        return None
+    return [dict(f) for f in st], prev
+
+
 def wstate(w, stream):
+    ws = writer_state(w)
+    if ws is None:
+        return '%d/?/?' % len(stream.getvalue())
     stack = ','.join(enc_opt_text(f['encoding']) if (f['encoding'] is None or isinstance(f['encoding'], str))
-                     else '?' for f in w._stack)
-    return '%d/%s/%s' % (len(stream.getvalue()), stack, sec_show(w._prev_section))
+                     else '?' for f in ws[0])
+    return '%d/%s/%s' % (len(stream.getvalue()), stack, sec_show(ws[1]))
 
 
 DEFAULT = object()
